@@ -7,12 +7,12 @@ E = "LLBuild.Engine."
 class Check(EngineCheck):
     prop = "C07"
     module = "LLBuild.Props.C07"
-    theorems = [E + "C07_lasso", E + "C07_empty_report_only_when_root_complete", E + "C07_wait_for_is_real", E + "C07_parked_dep", E + "C07_failure_has_cause",
+    theorems = [E + "C07_lasso", E + "C07_empty_report_only_when_root_complete", E + "C07_wait_for_is_real", E + "C07_parked_dep", E + "C07_failure_has_cause", E + "C07_cycle_never_succeeds", E + "Clean_not_cyclic",
                 E + "engine_fingerprint_matches_model"]
     mix = [(0.4, {"cyclic": True}), (0.3, {"cyclic": True, "malformed": True}), (0.15, {"cyclic": True, "cancel": True}), (0.15, {})]
     budget = (300, 3000)
     assumptions = EngineCheck.assumptions + [
-        "'never stalls' and 'a real cycle is always reported' are decided on the real engine (watchdog; python reference evaluation of the demanded graph), not by a theorem"]
+        "'never stalls' is decided on the real engine (watchdog); 'a real cycle is always reported' is proved in the form C07_cycle_never_succeeds (no accepted history ends a build of a key in a cyclic set successfully) for cycles through value-carrying requests; cycles through must-follow / single-use edges and the absence of stalls are decided by the python reference evaluation of the demanded graph on the real engine's traces"]
 
 
 CHECK = Check()
